@@ -140,3 +140,73 @@ def run(ctx):
     missing = [p for p in SPOTS if ctx.paths.get(p + '|brute', 0) == 0]
     if missing:
         raise Infra(f'vertex placements without input: {missing}')
+    # ======== "sitecov" input stream - self-contained, implemented at the end of this file; keep this call last ========
+    _sitecov_tail(ctx)
+
+
+# ================================================================================================
+# "sitecov" input stream (harness/sitecov.py, DESIGN 3c): every comparison of the CURRENT source of max_rate_t3 (and of
+# rate_t3, which it calls) is driven to lhs == rhs, +-1 and both outcomes; the inputs found are pushed through `run`
+# itself (same real code, driver comparison, oracle and ctx.count - additionally counted under the path 'sitecov').
+# Self-contained block at the end of the file on purpose (the body of `run` is untouched except for its last line).
+# ================================================================================================
+def _sitecov_rerun(ctx, cases):
+    """push `cases` through run() itself: gen_cases is replaced for the duration of the nested call"""
+    g = globals()
+    orig = g['gen_cases']
+    g['gen_cases'] = lambda _ctx: list(cases)
+    n_notes = len(ctx.notes)
+    ctx._in_sitecov = True
+    try:
+        g['run'](ctx)
+    finally:
+        g['gen_cases'] = orig
+        ctx._in_sitecov = False
+    del ctx.notes[n_notes:]                       # the nested pass repeats the closing note of the module
+
+
+def _sitecov_tail(ctx):
+    import os
+    if getattr(ctx, '_in_sitecov', False) or getattr(ctx, 'replay', None) or os.environ.get('SITECOV_OFF'):
+        return
+    from . import sitecov
+    from plotink import ebb_calc
+    rng = ctx.rng
+    # seeds: a sample of this module's own generated in-domain inputs
+    pool = [gen_random(rng) for _ in range(400)]
+    if not os.environ.get('SITECOV_ONLY'):
+        pool += [gen_vertex(rng) for _ in range(300)] + [gen_extreme(rng) for _ in range(100)]
+    pool = [c for c in pool if firmware_valid(*c)]
+    seeds = rng.sample(pool, min(len(pool), 250))
+    saved = mpmath.mp.dps
+    sitecov.stream(ctx, 'max_rate_t3', ebb_calc.max_rate_t3, seeds, rerun=lambda cs: _sitecov_rerun(ctx, cs),
+                   moves=sitecov.Moves(domain=lambda c: all(type(x) is int for x in c) and firmware_valid(*c),
+                                       lo={0: 1}, hi={0: 2 ** 32}), budget=3000)
+    mpmath.mp.dps = saved
+
+
+def _sitecov_only_setup():
+    # EXPERIMENT ONLY (measures what the sitecov stream finds on its own): the vertex-placement generators, the small box
+    # and the corpus are disabled - inputs = the random family + the sitecov stream; the placement-coverage requirement,
+    # which the random family alone does not meet, becomes a note.
+    g = globals()
+    full_run = g['run']
+
+    def gen_cases_random(ctx):
+        return [gen_random(ctx.rng) for _ in range(ctx.n(3000))]
+
+    def run_tolerant(ctx):
+        try:
+            full_run(ctx)
+        except Infra as ex:
+            if 'placements without input' not in str(ex):
+                raise
+            if not getattr(ctx, '_in_sitecov', False):
+                ctx.notes.append('SITECOV_ONLY: ' + str(ex))
+                _sitecov_tail(ctx)
+    g['gen_cases'], g['run'] = gen_cases_random, run_tolerant
+
+
+import os as _os   # noqa: E402
+if _os.environ.get('SITECOV_ONLY'):
+    _sitecov_only_setup()
